@@ -37,7 +37,7 @@ CASE_TIMEOUT = {'quick': 120, 'thorough': 300}
 
 
 # appended to RULE in the evidence (vlib/runner.py)
-RULE_ADDENDUM = 'Added in round 5: the head-loss rows of every Open valve and Active TCV swept in both flow directions on the algebraic model (no solve needed); pipe roughness / diameter / minor loss / length changed by time controls during the run; more valve rigs hold the valve Open and push it backwards.'
+RULE_ADDENDUM = 'Added in round 5: the head-loss rows of every Open valve and Active TCV swept in both flow directions on the algebraic model (no solve needed); pipe roughness / diameter / minor loss / length changed by time controls during the run; more valve rigs hold the valve Open and push it backwards. Round 6: the power of a constant-power pump changed by a control during the run.'
 
 def n_cases(tier):
     return base_cases(tier) + len(suite.files(tier))     # + the repository's own tests under the monitor (vlib/props/suite.py)
